@@ -351,7 +351,12 @@ func init() {
 	register(&propDef{ID: "C13", Jobs: slJobs("C13"),
 		Rule:  "all schedules within the preemption bound of closed 2-3 thread drivers over {Insert(k,level), Delete(k), DeleteNode(handle), Lookup(k)} on keys {1,2,3} from 5 initial contents, Go-managed and user-managed nodes; every call/return history plus a final quiescent scan is checked for linearizability against an ordered set with node identity; non-trivial = schedule deviating from the default one with a context switch, distinct by observation hash",
 		Notes: []string{"Go atomics are sequentially consistent; plain accesses are atomic with the step containing them", "levels are chosen through Insert2's randFn (capped by list level + 1 by NewLevel)"}})
-	register(&propDef{ID: "C14", Jobs: slJobs("C14"),
-		Rule:  "same drivers and schedules as C13; at the quiescent end of every execution the structure walker (per-level order, acyclicity, sub-sequence, height completeness) and the statistics reconciliation run; builder and nitro-level quiescent points are covered by the C18/C02 jobs listed in the same evidence",
+	register(&propDef{ID: "C14", Jobs: func(tier string) []Job {
+		jobs := slJobs("C14")(tier)
+		// nitro-level quiescent points: the sequential histories of C02 with the walker + DumpStats reconciliation
+		jobs = append(jobs, seqJobs("C14", tier, seqCfgs(tier, []bool{false, true}, []string{"default"}, []string{"drain"}, 5, 6))...)
+		return jobs
+	},
+		Rule:  "same drivers and schedules as C13; at the quiescent end of every execution the structure walker (per-level order, acyclicity, sub-sequence, height completeness) and the statistics reconciliation run; plus every nitro-level sequential history up to the depth (alphabet of C02, workers drained after every call) with the walker and the reconciliation of DumpStats (writer-local statistics merged) and of the allocator live set at every quiescent point; builder outputs are walked by the C18 check, restored instances by C05",
 		Notes: []string{"statistics are compared at quiescence only"}})
 }
